@@ -346,7 +346,9 @@ func (x *vc) reflectModel(fr *frame, st *state, callee *ssa.Function, args []Val
 			implies(not(eq(args[0].T, "(mkiface 0 0)")), and(eq(app("rtype_id", r.T), app("itag", args[0].T)), not(eq(app("ival", r.T), "0"))))))
 		return r, true
 	case "reflect.SliceOf", "reflect.PtrTo", "reflect.PointerTo", "reflect.MapOf":
-		return x.freshResult(st, resT, "rtype"), true
+		r := x.freshResult(st, resT, "rtype")
+		x.assume(st.guard, and(not(eq(app("itag", r.T), "0")), not(eq(app("ival", r.T), "0")))) // type constructors never return nil
+		return r, true
 	case "reflect.DeepEqual":
 		r := x.freshVal("deepeq", boolT, st)
 		x.assume(st.guard, implies(eq(args[0].T, args[1].T), r.T))
